@@ -119,6 +119,18 @@ func verifHarness_C03_sendAckStep() {
 			SyncReplicationState: &replicationv1.SyncReplicationState{InclusiveLowWatermark: w}}}}
 	go func() { _ = r.sendAck(src, shut) }()
 	verifQuiesce()
+	// optionally the stream then idles for more than a second: the keep-alive must repeat exactly what
+	// was last sent (it bypasses the monotonicity gate and the clamp)
+	stepSent, stepN := sent, nSent
+	if verifChoose("then-idle", 2) == 1 {
+		verifAdvance(1100 * time.Millisecond)
+		verifQuiesce()
+		if nSent > stepN {
+			verifReach("step-keep-alive-sent")
+			verifAssert(stepN == 1 && sent == stepSent, "step:keep-alive-repeats-the-last-ack-sent")
+		}
+		sent, nSent = stepSent, stepN
+	}
 	shut.Shutdown()
 	verifQuiesce()
 	verifAssert(nSent <= 1, "step:at-most-one-ack-per-incoming-ack")
